@@ -385,6 +385,14 @@ impl ModuleManager {
             imports.remove(name);
         }
 
+        // Drop the import declarations that point at the deleted module, so that the
+        // declarations stay in step with the import graph (a dangling declaration makes
+        // visibility queries fail, and it would silently re-attach to a module that is
+        // later created under the same name without being seen by cycle detection)
+        for module in self.modules.values_mut() {
+            module.imports.retain(|import| import.from_module != name);
+        }
+
         Ok(())
     }
 
